@@ -182,6 +182,7 @@ pub struct Driver {
     pub untracked: usize,
     pub rebased: usize,
     pub abandoned_in_rebase: usize,
+    rebase_log: std::rc::Rc<std::cell::RefCell<Vec<(Commit, Option<Commit>)>>>,
 }
 
 fn bname(n: u64) -> RefNameBuf {
@@ -214,6 +215,7 @@ impl Driver {
             untracked: 0,
             rebased: 0,
             abandoned_in_rebase: 0,
+            rebase_log: Default::default(),
         };
         d.track(root);
         d
@@ -327,6 +329,10 @@ impl Driver {
         let r = jjv::catch(|| self.apply_inner(&op));
         match r {
             None => {
+                if matches!(op, Op::Rebase(_)) {
+                    // what the implementation did before it panicked
+                    let _ = jjv::catch(|| self.finish_rebase_log());
+                }
                 // the transaction may be in any state; drop it
                 self.tx = None;
                 Outcome::Panic
@@ -474,34 +480,17 @@ impl Driver {
                     rewrite_refs: RewriteRefsOptions { delete_abandoned_bookmarks: o.delete_abandoned },
                     simplify_ancestor_merge: o.simplify,
                 };
-                let mut created: Vec<(Commit, Commit)> = vec![];
-                let mut abandoned: Vec<Commit> = vec![];
+                let log = self.rebase_log.clone();
+                log.borrow_mut().clear();
                 let res = self
                     .tx()
                     .repo_mut()
                     .rebase_descendants_with_options(&immutable, &options, |old, rebased| match rebased {
-                        RebasedCommit::Rewritten(c) => created.push((old, c)),
-                        RebasedCommit::Abandoned { .. } => abandoned.push(old),
+                        RebasedCommit::Rewritten(c) => log.borrow_mut().push((old, Some(c))),
+                        RebasedCommit::Abandoned { .. } => log.borrow_mut().push((old, None)),
                     })
                     .block_on();
-                self.rebased += created.len();
-                self.abandoned_in_rebase += abandoned.len();
-                let mut oracle: Vec<(usize, u8)> = vec![];
-                for old in abandoned {
-                    oracle.push((self.id2pos[old.id()], 1));
-                }
-                for (old, c) in created {
-                    let e_old = old.is_empty(self.tx().repo()).block_on().unwrap();
-                    let e_new = c.is_empty(self.tx().repo()).block_on().unwrap();
-                    if e_old != e_new {
-                        oracle.push((self.id2pos[old.id()], 2));
-                    }
-                    self.track(c);
-                }
-                oracle.sort();
-                if let Some(Op::Rebase(o)) = self.ops.last_mut() {
-                    o.oracle = oracle;
-                }
+                self.finish_rebase_log();
                 if let Err(e) = &res {
                     if std::env::var("VERIF_DEBUG").is_ok() {
                         eprintln!("rebase error: {e:?}");
@@ -540,6 +529,38 @@ impl Driver {
                 self.views.push(v);
                 Outcome::Ok
             }
+        }
+    }
+
+    /// Turns the progress-callback log of the last rebase into the oracle of its `Op::Rebase`
+    /// and tracks the commits it created (in creation order).
+    fn finish_rebase_log(&mut self) {
+        let log: Vec<(Commit, Option<Commit>)> = self.rebase_log.borrow_mut().drain(..).collect();
+        if log.is_empty() {
+            return;
+        }
+        let mut oracle: Vec<(usize, u8)> = vec![];
+        for (old, new) in log {
+            let old_pos = self.id2pos[old.id()];
+            match new {
+                None => {
+                    self.abandoned_in_rebase += 1;
+                    oracle.push((old_pos, 1));
+                }
+                Some(c) => {
+                    self.rebased += 1;
+                    let e_old = old.is_empty(self.tx().repo()).block_on().unwrap();
+                    let e_new = c.is_empty(self.tx().repo()).block_on().unwrap();
+                    if e_old != e_new {
+                        oracle.push((old_pos, 2));
+                    }
+                    self.track(c);
+                }
+            }
+        }
+        oracle.sort();
+        if let Some(Op::Rebase(o)) = self.ops.last_mut() {
+            o.oracle = oracle;
         }
     }
 
